@@ -244,7 +244,8 @@ def execute(trace):
                             diff=rcontent.content_diff(want, got), before=digest.canon_node(before),
                             after=digest.canon_node(t.node), **base)
                 break
-            bad = judge_rearrange(before, t.node, keys, af, mref, (op.get('stream') or {}).get('mode'), res)
+            bad = judge_rearrange(before, t.node, keys, af, mref, (op.get('stream') or {}).get('mode'), res,
+                                  stream_consumed=stream.calls > 0)
             if bad:
                 res.violate('rearrange', bad[0], detail=bad[1], keys=keys, attributes_first=af,
                             before=digest.canon_node(before), after=digest.canon_node(t.node), **base)
@@ -261,7 +262,7 @@ def execute(trace):
     return res
 
 
-def judge_rearrange(before, after, keys, af, mref, stream_mode, res):
+def judge_rearrange(before, after, keys, af, mref, stream_mode, res, stream_consumed=True):
     """Per node: same branch multiset, concept stays first, rest ordered by the documented key, ties stable."""
     nb, na = node_branches(before), node_branches(after)
     bmap = {}
@@ -285,6 +286,11 @@ def judge_rearrange(before, after, keys, af, mref, stream_mode, res):
             old_rest, new_rest = old, branches
         has_random = 'random' in keys
         if has_random and stream_mode != 'constant':
+            continue
+        if has_random and not stream_consumed:
+            # the random keys were not drawn from the simulator's stream (the code reaches the PRNG some other
+            # way): their values are unknown, so there is no reference order for this call
+            res.hit('probe.prng_seam_bypassed')
             continue
         if has_random:
             res.hit('probe.constant_stream_ties')
